@@ -34,6 +34,9 @@ M_ERR_ACCESS, M_ERR_IO, M_ERR_NO_SPACE, M_ERR_NO_SUCH_FILE, M_ERR_QUOTA, M_ERR_F
 BCFGS = ("B", "Bsim")
 MODES = {"rb": 0, "wb": 1, "ab": 2}
 ENOENT, EIO, EACCES, ENOSPC, EINVAL, EISDIR, EBADF = 2, 5, 13, 28, 22, 21, 9
+ESPIPE, ENOTTY, EINTR, EAGAIN = 29, 25, 4, 11
+NOISE = -1                  # `short` field of a fault: the call succeeds normally and leaves errno = the given value behind
+NOISE_FAMILY = "errno-noise:"
 # scenario families whose offsets are not "append at the end": the token-passing fallback ignores offsets (F-C12e)
 MPI_UNDEFINED = -32766      # Open MPI's value
 OFFSET_FAMILIES = ("header-then-blocks", "offsets-gaps", "offsets-reverse")
@@ -436,6 +439,55 @@ def gen_scenarios(ctx):
     # every error code of the simulated mpi.h (and a few outside) through a failing MPI_File_open: class = MPI_Error_class (code)
     for e in list(range(1, 58)) + [60, 1000, 0x3fffffff]:
         S.append(Scen(rng.choice([1, 2]), [("o", rng.choice([0, 1, 2])), ("c",)], init=b"q", faults=[(0, MOPEN, 0, e, 0)], family="bsim-code-sweep", cfgs="S", **rs()))
+    # (j) "success with errno noise" (a legal freedom of the C library): the interposed stdio call succeeds normally and leaves
+    #     errno = ESPIPE / ENOTTY / EINTR / EAGAIN behind - at every call site of the wrapper without MPI I/O.  The family name
+    #     carries the site; every violation of such a scenario is reported under the key errno-noise:<site>
+    noise_errnos = [ESPIPE, ENOTTY, EINTR, EAGAIN]
+
+    def noise(site, P, ops, rank, fn, k, cfgs, init=None):
+        e = noise_errnos[len(S) % 4]
+        S.append(Scen(P, ops, init=init, faults=[(rank, fn, k, e, NOISE)], family=NOISE_FAMILY + site, cfgs=cfgs, **rs()))
+    for tsize in ((1, 4) if quick else (1, 4, 8)):
+        init = block(5, 3, 0, 6 * tsize)
+        # rank 0 only (same call numbers in A and C): fopen 0 ftell 0 fseek 0 fwrite 0 fseek 1 fclose 0 | fopen 1 ftell 1 fseek 2 fread 0 fseek 3 fclose 1
+        ops1 = [("o", 1), ("w", tsize, 1, tsize, 2), ("c",), ("o", 0), ("r", tsize, 0, 2), ("c",)]
+        ops2 = [("o", 2), ("w", tsize, 1, 6 * tsize, 1), ("c",)]
+        for P in (1, 2):
+            for k in (0, 1):
+                noise("open-fopen", P, ops1, 0, FOPEN, k, "AC", init)
+                noise("at-ftell", P, ops1, 0, FTELL, k, "AC", init)
+                noise("at-fseek", P, ops1, 0, FSEEK, 2 * k, "AC", init)
+                noise("at-restore-fseek", P, ops1, 0, FSEEK, 2 * k + 1, "AC", init)
+                noise("close-fclose", P, ops1, 0, FCLOSE, k, "AC", init)
+            noise("at-transfer", P, ops1, 0, FWRITE, 0, "AC", init)
+            noise("at-transfer", P, ops1, 0, FREAD, 0, "AC", init)
+            noise("open-fopen", P, ops2, 0, FOPEN, 0, "AC", init)
+        # the token-passing fallback (C): rank 0: fopen 0 | transfer 0 fflush 0 fclose 0 fopen 1 (re-open) | fclose 1;
+        # rank q > 0: fopen 0 [fseek 0] transfer 0 fflush 0 fclose 0
+        P = 3
+        counts = [2, 1, 2]
+        offs, end = consecutive(0, counts, tsize)
+        wopsC = [("o", 1), ("W", tsize, 1, tuple(zip(offs, counts))), ("c",)]
+        ropsC = [("o", 0), ("R", tsize, tuple(zip(offs, counts))), ("c",)]
+        initC = block(6, 4, 0, end)
+        for q in (1, 2):
+            noise("coll-fopen", P, wopsC, q, FOPEN, 0, "C")
+            noise("coll-fopen", P, ropsC, q, FOPEN, 0, "C", initC)
+        for q in (0, 1, 2):
+            noise("coll-transfer", P, wopsC, q, FWRITE, 0, "C")
+            noise("coll-transfer", P, ropsC, q, FREAD, 0, "C", initC)
+            noise("coll-seek", P, ropsC, q, FSEEK, 0, "C", initC)
+            noise("coll-flush", P, wopsC, q, FFLUSH, 0, "C")
+            noise("coll-flush", P, ropsC, q, FFLUSH, 0, "C", initC)
+            noise("coll-fclose", P, wopsC, q, FCLOSE, 0, "C")
+            noise("coll-fclose", P, ropsC, q, FCLOSE, 0, "C", initC)
+        noise("coll-reopen", P, wopsC, 0, FOPEN, 1, "C")
+        noise("coll-reopen", P, ropsC, 0, FOPEN, 1, "C", initC)
+    # the REAL thing: a named pipe opened for append (glibc: fopen succeeds, errno = ESPIPE) and for reading; no model of a
+    # pipe: judged by the co-simulation of the programs and by the stream / memory monitors
+    for P in (1, 2, 3):
+        for am in (2, 0, 1):
+            S.append(Scen(P, [("o", am), ("c",), ("o", am), ("c",)], pathkind=3, family="fifo-open", cfgs="AC", **rs()))
     # (f) random sequences with random faults
     for rep in range(60 if quick else 1500):
         P = rng.choice(Ps)
@@ -933,6 +985,9 @@ def run(ctx):
     nviol = {}
 
     def report(sc, cfg, key, what, extra):
+        if sc.family.startswith(NOISE_FAMILY):
+            what = "[%s] %s" % (key, what)
+            key = sc.family                 # errno-noise:<site>
         nviol[key] = nviol.get(key, 0) + 1
         if nviol[key] <= 1:
             rep = dict(scenario=sc.to_json(), configuration=cfg)
@@ -980,12 +1035,20 @@ def run(ctx):
                 streams = [one]
             # failed stdio calls per operation
             failures = {}
+            noisy = set((f[0], f[1], f[2]) for f in sc.faults if f[4] == NOISE)
             for q, evs in enumerate(streams):
                 cur = None
+                ncall = {}
                 for e in evs:
                     if e[0] == "op":
                         cur = e[1]
-                    elif e[0] == "io" and failed_call(e[1], e[3], e[4]):
+                    elif e[0] == "io":
+                        who = e[5] if cfg == "A" else q
+                        kk = ncall.get((who, e[1]), 0)
+                        ncall[(who, e[1])] = kk + 1
+                        if (who, e[1], kk) in noisy and e[1] in (FWRITE, FREAD):
+                            continue            # a complete transfer that leaves errno set is not a failed call
+                    if e[0] == "io" and failed_call(e[1], e[3], e[4]):
                         if e[1] in (MOPEN, MSETSIZE, MCLOSE) and q != 0:
                             continue            # a collective MPI I/O call with one outcome: counted once (rank 0)
                         failures.setdefault(cur, []).append((e[5] if cfg == "A" else q, FN_NAMES[e[1]]))
@@ -993,7 +1056,8 @@ def run(ctx):
             big = sc.family == BIG_FAMILY
             # ---- model: prediction of the global model (not for the big-offset family: the model's file is a list of bytes,
             #      12 GiB of zeros cannot be materialised; the theorems hold for every offset, the tie is co-simulation + oracle)
-            if not big:
+            fifo = sc.pathkind == 3
+            if not big and not fifo:
                 model_lines.append("G %s %s %s %s %s" % (mcfg, hx(P), sc.model_node(), sc.model_plan(), sc.model_ops()))
                 model_index.append(("G", cfg, si, dict(res=res, ftxt=ftxt, stdio=stdio, mem=r.mem, aborted=aborted,
                                                        nfail=sum(len(v) for v in failures.values()))))
@@ -1025,6 +1089,20 @@ def run(ctx):
                 # SC_ABORT is a loud, collective end: the property makes no claim; it must have a cause
                 if not any(failures.values()):
                     report(sc, cfg, "abort-without-cause:%s" % cfg, "the run aborted although no stdio call failed: %s" % r.report[:300], rep)
+                continue
+            if fifo:
+                # a named pipe: every open and close must succeed on every rank, nothing may be left behind
+                for i, o in enumerate(sc.ops):
+                    for q in ([0] if cfg == "A" else range(P)):
+                        rq = res[q][i]
+                        if rq is None or rq.cls != "SUCCESS" or rq.flag != (1 if o[0] == "c" else 0):
+                            report(sc, cfg, "fifo-open:%s" % cfg, "operation %d (%s, mode %s) on a named pipe, rank %d: class %s, handle NULL = %s (fopen of glibc succeeds and leaves errno = ESPIPE for mode ab)"
+                                   % (i, o[0], o[1] if o[0] == "o" else "-", q, None if rq is None else rq.cls, None if rq is None else rq.flag), rep)
+                            break
+                if stdio is not None and stdio[2] != 0:
+                    report(sc, cfg, "stream-left-open:%s" % cfg, "%d FILE* still open after the scenario on a named pipe (fopen calls %d, fclose calls %d)" % (stdio[2], stdio[0], stdio[1]), rep)
+                if r.mem not in (0, None):
+                    report(sc, cfg, "memory:%s" % cfg, "sc_memory_status changed by %s over the scenario" % r.mem, rep)
                 continue
             if big:
                 if any(failures.values()):
